@@ -1,10 +1,12 @@
 package main
 
 import (
+	"bytes"
 	"fmt"
 	"go/ast"
 	"go/token"
 	"os"
+	"path/filepath"
 	"regexp"
 	"sort"
 	"strconv"
@@ -85,6 +87,17 @@ var c05Delivered = map[string]string{
 	"TransformValsetToCompassValset(m.Valset).Validators=slice.Map(val.GetValidators(),func(sstring)common.Address{returncommon.HexToAddress(s)})": "FValidators",
 	"TransformValsetToCompassValset(m.Valset).Powers=slice.Map(val.GetPowers(),func(puint64)*big.Int{returnbig.NewInt(int64(p))})":                 "FPowers",
 	"TransformValsetToCompassValset(m.Valset).ValsetId=big.NewInt(int64(val.GetValsetID()))":                                                       "FValsetId",
+}
+
+// submit_batch: ABI input name (tuple components dotted) -> batch field and the ABI type expected there
+var c05BatchABI = map[string][2]string{
+	"token":         {"FToken", "address"},
+	"args.receiver": {"FReceivers", "address[]"},
+	"args.amount":   {"FAmounts", "uint256[]"},
+	"batch_id":      {"FBatchNonce", "uint256"},
+	"deadline":      {"FBatchTimeout", "uint256"},
+	"relayer":       {"FRelayer", "address"},
+	"gas_estimate":  {"FEstimate", "uint256"},
 }
 
 var c05pkgs = map[string]bool{"bytes": true, "big": true, "common": true, "crypto": true, "abi": true, "slice": true, "whoops": true, "binary": true, "math": true}
@@ -296,6 +309,16 @@ func (f *c05fn) litValues(cl *ast.CompositeLit, wantNames []string) ([]ast.Expr,
 			return nil, fmt.Errorf("mixed keyed/unkeyed literal")
 		}
 		order := fieldNames
+		if order == nil && wantNames != nil {
+			// named struct type packed into an ABI tuple: go-ethereum matches struct fields to tuple
+			// components BY NAME (ToCamelCase of the component name), so the order is the ABI's
+			if len(wantNames) != len(keyed) {
+				return nil, fmt.Errorf("struct literal sets %d fields, abi tuple has %d components", len(keyed), len(wantNames))
+			}
+			for _, n := range wantNames {
+				order = append(order, c05camel(n))
+			}
+		}
 		if order == nil {
 			// named struct type: keep source order of the keys (only used for flat field sets)
 			for _, e := range cl.Elts {
@@ -737,6 +760,84 @@ func extractC05(c *Ctx) error {
 	if tvLit == nil || c05params(tv)[0] != "val" {
 		return fmt.Errorf("TransformValsetToCompassValset shape not recognised")
 	}
+	// the compass ABI shipped in the repository (the one the evm keeper tests hand to VerifyAgainstTX)
+	const compassABIPath = "x/evm/keeper/testdata/sample-abi.json"
+	rawABI, err := os.ReadFile(filepath.Join(c.Repo, compassABIPath))
+	if err != nil {
+		return err
+	}
+	compassABI, err := abi.JSON(bytes.NewReader(rawABI))
+	if err != nil {
+		return fmt.Errorf("%s: %v", compassABIPath, err)
+	}
+	const consensusSig = "((address[],uint256[],uint256),(uint256,uint256,uint256)[])"
+	// abiMethod returns the method's inputs after the leading consensus argument
+	abiMethod := func(name string) (abi.Method, abi.Arguments, error) {
+		m, ok := compassABI.Methods[name]
+		if !ok {
+			return m, nil, fmt.Errorf("%s: no method %s", compassABIPath, name)
+		}
+		if len(m.Inputs) == 0 || m.Inputs[0].Name != "consensus" || m.Inputs[0].Type.String() != consensusSig {
+			return m, nil, fmt.Errorf("%s: %s does not start with consensus %s", compassABIPath, name, consensusSig)
+		}
+		return m, m.Inputs[1:], nil
+	}
+	emitABI := func(prefix string, m abi.Method, ins abi.Arguments) error {
+		var tys, names, sel []string
+		for _, in := range ins {
+			t := in.Type
+			ct, err := c05coqType(&t)
+			if err != nil {
+				return fmt.Errorf("%s.%s: %v", m.RawName, in.Name, err)
+			}
+			tys = append(tys, ct)
+			names = append(names, CoqStr(in.Name))
+		}
+		for i := 0; i < 4; i++ {
+			sel = append(sel, strconv.Itoa(int(m.ID[i])))
+		}
+		c.P("(* %s: %s *)", compassABIPath, m.Sig)
+		c.P("Definition %s_abi_method : string := %s.", prefix, CoqStr(m.RawName))
+		c.P("Definition %s_abi_selector : list Z := [%s].", prefix, strings.Join(sel, "; "))
+		c.P("Definition %s_abi_names : list string := [%s].", prefix, strings.Join(names, "; "))
+		c.P("Definition %s_abi_sig : list abity := [%s].", prefix, strings.Join(tys, "; "))
+		c.Info(prefix+"_abi", m.Sig)
+		return nil
+	}
+	c.P("Definition compass_abi_path : string := %s.", CoqStr(compassABIPath))
+	// the struct types go-ethereum maps onto the ABI tuples by field name
+	structFields := func(name string) string {
+		var out []string
+		for _, d := range append(append([]ast.Decl{}, af.Decls...), tf.Decls...) {
+			gd, ok := d.(*ast.GenDecl)
+			if !ok {
+				continue
+			}
+			for _, sp := range gd.Specs {
+				ts, ok := sp.(*ast.TypeSpec)
+				if !ok || ts.Name.Name != name {
+					continue
+				}
+				if st, ok := ts.Type.(*ast.StructType); ok {
+					for _, fl := range st.Fields.List {
+						for _, n := range fl.Names {
+							out = append(out, n.Name+":"+c05norm(c.Src(fl.Type)))
+						}
+					}
+				}
+			}
+		}
+		return strings.Join(out, ",")
+	}
+	for name, want := range map[string]string{
+		"CompassLogicCallArgs": "LogicContractAddress:common.Address,Payload:[]byte",
+		"FeeArgs":              "RelayerFee:*big.Int,CommunityFee:*big.Int,SecurityFee:*big.Int,FeePayerPalomaAddress:[32]byte",
+		"CompassValset":        "ValsetId:*big.Int,Validators:[]common.Address,Powers:[]*big.Int",
+	} {
+		if got := structFields(name); got != want {
+			errs = append(errs, fmt.Sprintf("struct %s has fields {%s}, expected {%s}", name, got, want))
+		}
+	}
 	delivered := []struct{ recv, prefix, method string }{
 		{"SubmitLogicCall", "logic_call", "submit_logic_call"},
 		{"UploadUserSmartContract", "deploy_contract", "deploy_contract"},
@@ -774,12 +875,29 @@ func extractC05(c *Ctx) error {
 			errs = append(errs, fmt.Sprintf("%s.VerifyAgainstTX: args := []any{..} / contractABI.Pack(\"m\", args...) not recognised", d.recv))
 			continue
 		}
+		if !strings.Contains(c05norm(c.Src(fd.Body)), "contractABI,err:=abi.JSON(strings.NewReader(compass.GetAbiJSON()))") {
+			errs = append(errs, fmt.Sprintf("%s.VerifyAgainstTX: contractABI is not the compass ABI JSON", d.recv))
+			continue
+		}
 		mname, ok := c05strLit(packs[0].Args[0])
 		if !ok {
 			errs = append(errs, fmt.Sprintf("%s.VerifyAgainstTX: method name not a literal", d.recv))
 			continue
 		}
-		var flat []string
+		if mname != d.method {
+			errs = append(errs, fmt.Sprintf("%s.VerifyAgainstTX packs %q, expected %q", d.recv, mname, d.method))
+			continue
+		}
+		am, ins, err := abiMethod(mname)
+		if err != nil {
+			errs = append(errs, err.Error())
+			continue
+		}
+		if len(argsLit.Elts) != len(ins)+1 {
+			errs = append(errs, fmt.Sprintf("%s.VerifyAgainstTX: Pack(%q) is given %d arguments, the ABI lists %d inputs", d.recv, mname, len(argsLit.Elts), len(ins)+1))
+			continue
+		}
+		var flat, slots []string
 		bad := false
 		for i, e := range argsLit.Elts {
 			src := c05norm(c.Src(e))
@@ -790,7 +908,14 @@ func extractC05(c *Ctx) error {
 				}
 				continue
 			}
+			aty := ins[i-1].Type
 			if src == "TransformValsetToCompassValset(m.Valset)" {
+				if aty.T != abi.TupleTy || len(aty.TupleRawNames) != len(tvLit.Elts) {
+					errs = append(errs, fmt.Sprintf("%s.VerifyAgainstTX: %s is packed into %s", d.recv, src, aty.String()))
+					bad = true
+					continue
+				}
+				keyed := map[string]ast.Expr{}
 				for _, el := range tvLit.Elts {
 					kv, ok := el.(*ast.KeyValueExpr)
 					if !ok {
@@ -798,7 +923,18 @@ func extractC05(c *Ctx) error {
 						bad = true
 						continue
 					}
-					key := src + "." + c.Src(kv.Key) + "=" + c05norm(c.Src(kv.Value))
+					keyed[c.Src(kv.Key)] = kv.Value
+				}
+				st := &c05slot{sub: []*c05slot{}}
+				// struct fields are matched to tuple components by name
+				for _, cn := range aty.TupleRawNames {
+					v, ok := keyed[c05camel(cn)]
+					if !ok {
+						errs = append(errs, fmt.Sprintf("TransformValsetToCompassValset sets no field for abi component %s", cn))
+						bad = true
+						continue
+					}
+					key := src + "." + c05camel(cn) + "=" + c05norm(c.Src(v))
 					if dump {
 						fmt.Fprintf(os.Stderr, "DKEY %s\n", key)
 					}
@@ -808,25 +944,152 @@ func extractC05(c *Ctx) error {
 						bad = true
 						continue
 					}
-					flat = append(flat, fld)
+					st.sub = append(st.sub, &c05slot{field: fld})
 				}
+				st.flat(&flat)
+				slots = append(slots, st.coq())
 				continue
 			}
-			s, err := f.slotOf(e, nil, c05Delivered)
+			s, err := f.slotOf(e, &aty, c05Delivered)
 			if err != nil {
 				errs = append(errs, fmt.Sprintf("%s.VerifyAgainstTX: %v", d.recv, err))
 				bad = true
 				continue
 			}
 			s.flat(&flat)
+			slots = append(slots, s.coq())
 		}
 		if bad {
 			continue
 		}
 		c.P("(* %s.VerifyAgainstTX: contractABI.Pack(%q, consensus, ...) *)", d.recv, mname)
 		c.P("Definition %s_delivered_method : string := %s.", d.prefix, CoqStr(mname))
+		c.P("Definition %s_delivered_slots : list slot := [%s].", d.prefix, strings.Join(slots, "; "))
 		c.P("Definition %s_delivered : list field := [%s].", d.prefix, strings.Join(flat, "; "))
 		c.Info(d.prefix+"_delivered", strings.Join(flat, ","))
+		if err := emitABI(d.prefix, am, ins); err != nil {
+			errs = append(errs, err.Error())
+		}
+	}
+	// submit_batch is packed by the relayer (pigeon), not in this repository: its delivered arguments are
+	// derived from the ABI's input list, each input / tuple component NAME mapped to a batch field.
+	{
+		am, ins, err := abiMethod("submit_batch")
+		if err != nil {
+			errs = append(errs, err.Error())
+		} else {
+			var flat, slots []string
+			var walk func(path string, t abi.Type) (*c05slot, error)
+			walk = func(path string, t abi.Type) (*c05slot, error) {
+				if t.T == abi.TupleTy {
+					s := &c05slot{sub: []*c05slot{}}
+					for i, cn := range t.TupleRawNames {
+						x, err := walk(path+"."+cn, *t.TupleElems[i])
+						if err != nil {
+							return nil, err
+						}
+						s.sub = append(s.sub, x)
+					}
+					return s, nil
+				}
+				want, ok := c05BatchABI[path]
+				if !ok {
+					return nil, fmt.Errorf("submit_batch: abi input %s (%s) is not a known batch field", path, t.String())
+				}
+				if want[1] != t.String() {
+					return nil, fmt.Errorf("submit_batch: abi input %s has type %s, expected %s", path, t.String(), want[1])
+				}
+				return &c05slot{field: want[0]}, nil
+			}
+			bad := false
+			for _, in := range ins {
+				s, err := walk(in.Name, in.Type)
+				if err != nil {
+					errs = append(errs, err.Error())
+					bad = true
+					continue
+				}
+				s.flat(&flat)
+				slots = append(slots, s.coq())
+			}
+			if !bad {
+				c.P("Definition submit_batch_delivered_slots : list slot := [%s].", strings.Join(slots, "; "))
+				c.P("Definition submit_batch_delivered : list field := [%s].", strings.Join(flat, "; "))
+				c.Info("submit_batch_delivered", strings.Join(flat, ","))
+				if err := emitABI("submit_batch", am, ins); err != nil {
+					errs = append(errs, err.Error())
+				}
+			}
+		}
+	}
+
+	// ---- the relay gate: nothing is handed out for relaying before an estimate was elected ----
+	{
+		hf, err := c.Parse("x/consensus/keeper/filters/has_gas_estimate.go")
+		if err != nil {
+			return err
+		}
+		hg := FindFunc(hf, "", "HasGasEstimate")
+		ck, err := c.Parse("x/consensus/keeper/concensus_keeper.go")
+		if err != nil {
+			return err
+		}
+		gr := FindFunc(ck, "Keeper", "GetMessagesForRelaying")
+		okGate := hg != nil && gr != nil &&
+			c05norm(c.Src(hg.Body)) == "{if!msg.GetRequireGasEstimation(){returntrue}returnmsg.GetGasEstimate()>0}" &&
+			strings.Contains(c05norm(c.Src(gr.Body)), "filters.HasGasEstimate(msg)&&")
+		c.P("Definition relay_filter_has_gas_estimate : bool := %v. (* GetMessagesForRelaying keeps msg only if filters.HasGasEstimate(msg); that is RequireGasEstimation -> GasEstimate > 0 *)", okGate)
+		// every enqueue site of a bridge-delivered action passes RequireGasEstimation: true
+		kfiles, err := c.ParseDir("x/evm/keeper")
+		if err != nil {
+			return err
+		}
+		var sites []string
+		for _, kf := range kfiles {
+			for _, ce := range Calls(kf, "PutMessageInQueue") {
+				if len(ce.Args) != 4 {
+					continue
+				}
+				msgSrc := c05norm(c.Src(ce.Args[2]))
+				mm := regexp.MustCompile(`Action:&types\.(Message_\w+)\{`).FindStringSubmatch(msgSrc)
+				if mm == nil {
+					continue
+				}
+				opt := c05norm(c.Src(ce.Args[3]))
+				req := strings.HasPrefix(opt, "&consensus.PutOptions{") && strings.Contains(opt, "RequireGasEstimation:true,")
+				sites = append(sites, fmt.Sprintf("(%s, %v)", CoqStr(mm[1]), req))
+			}
+		}
+		sort.Strings(sites)
+		c.P("Definition enqueue_sites_require_estimation : list (string * bool) := [%s].", strings.Join(sites, "; "))
+		c.Info("enqueue_sites_require_estimation", strings.Join(sites, " "))
+		gq, err := c.Parse("x/skyway/keeper/grpc_query.go")
+		if err != nil {
+			return err
+		}
+		ob := FindFunc(gq, "Keeper", "OutgoingTxBatches")
+		c.P("Definition batch_relay_requires_estimate : bool := %v. (* OutgoingTxBatches skips `batch.GasEstimate < 1` *)",
+			ob != nil && strings.Contains(c05norm(c.Src(ob.Body)), "ifbatch.GasEstimate<1{returnfalse}"))
+		ef, err := c.Parse("x/consensus/keeper/estimate.go")
+		if err != nil {
+			return err
+		}
+		cp := FindFunc(ef, "Keeper", "checkAndProcessEstimatedMessage")
+		fp := FindFunc(ef, "Keeper", "checkAndProcessEstimatedFeePayer")
+		okFees := cp != nil && fp != nil
+		if okFees {
+			b := c05norm(c.Src(cp.Body))
+			i := strings.Index(b, "iferr:=q.SetElectedGasEstimate(ctx,msg.GetId(),estimate);err!=nil{return")
+			j := strings.Index(b, "iferr:=k.checkAndProcessEstimatedFeePayer(ctx,msg,q,estimate);err!=nil{return")
+			fb := c05norm(c.Src(fp.Body))
+			okFees = i >= 0 && j > i &&
+				strings.Contains(fb, "fees,err:=k.calculateFeesForEstimate(ctx,valAddr,m.GetChainReferenceID(),estimate)iferr!=nil{return") &&
+				strings.Contains(fb, "action.SetFees(fees)_,err=q.Put(ctx,m,&consensus.PutOptions{MsgIDToReplace:msg.GetId(),})returnerr")
+			cm := FindFunc(ef, "Keeper", "CheckAndProcessEstimatedMessages")
+			okFees = okFees && cm != nil && strings.Contains(c05norm(c.Src(cm.Body)),
+				"cachedCtx,commit:=sdk.UnwrapSDKContext(ctx).CacheContext()iferr:=k.checkAndProcessEstimatedMessage(cachedCtx,msg,cq);err!=nil{")
+		}
+		c.P("Definition fees_elected_with_estimate : bool := %v. (* estimate and fees are written under one cache context, fees through action.SetFees + Put(MsgIDToReplace) *)", okFees)
 	}
 
 	// ---- id counter ----
@@ -858,6 +1121,65 @@ func extractC05(c *Ctx) error {
 	}
 	ib := c05norm(c.Src(inc.Body))
 	c.P("Definition id_increment_is_last_plus_one : bool := %v.", strings.Contains(ib, "nextID:=i.GetLastID(ctx,name)+1") && strings.Contains(ib, "store.Set(prefixKey,Uint64ToByte(nextID))") && strings.Contains(ib, "returnnextID"))
+
+	// ---- BatchQueue: a second counter for staging keys; messages get their ids from the shared one ----
+	{
+		bqf, err := c.Parse("x/consensus/keeper/consensus/batch.go")
+		if err != nil {
+			return err
+		}
+		bput := FindFunc(bqf, "BatchQueue", "Put")
+		bproc := FindFunc(bqf, "BatchQueue", "ProcessBatches")
+		if bput == nil || bproc == nil {
+			return fmt.Errorf("BatchQueue.Put / ProcessBatches not found")
+		}
+		bincs := Calls(bput.Body, "IncrementNextID")
+		if len(bincs) != 1 || len(bincs[0].Args) != 2 {
+			return fmt.Errorf("BatchQueue.Put: exactly one IncrementNextID(ctx, key) expected")
+		}
+		c.P("(* consensus.BatchQueue.Put: %s *)", c05norm(c.Src(bincs[0])))
+		c.P("Definition batch_id_counter_key_expr : string := %s.", CoqStr(c05norm(c.Src(bincs[0].Args[1]))))
+		bb := c05norm(c.Src(bput.Body))
+		c.P("Definition batch_put_stages_only : bool := %v. (* the staged item is written under the batching: prefix with the staging id as key; no base Put *)",
+			strings.Contains(bb, "batchQueue.Set(sdk.Uint64ToBigEndian(newID),data)returnnewID,nil") && !strings.Contains(bb, "c.base.Put("))
+		pb2 := c05norm(c.Src(bproc.Body))
+		c.P("Definition batch_process_puts_through_base : bool := %v. (* every batch of at most consensusQueueMaxBatchSize staged messages becomes ONE message through Queue.Put(.., nil) *)",
+			strings.Contains(pb2, "ifbatch==nil||len(batch.Msgs)>=consensusQueueMaxBatchSize{batch=&types.Batch{}batches=append(batches,batch)}") &&
+				strings.Contains(pb2, "for_,batch:=rangebatches{_,err:=c.base.Put(sdkCtx,batch,nil)iferr!=nil{returnerr}}") &&
+				strings.Contains(pb2, "for_,deleteKey:=rangedeleteKeys{queue.Delete(deleteKey)}"))
+		tyf, err := c.Parse("x/consensus/keeper/consensus/types.go")
+		if err != nil {
+			return err
+		}
+		mx, ok1 := ConstValue(c, []*ast.File{tyf}, "consensusQueueMaxBatchSize")
+		k1, ok2 := ConstValue(c, []*ast.File{tyf}, "consensusQueueIDCounterKey")
+		k2, ok3 := ConstValue(c, []*ast.File{tyf}, "consensusBatchQueueIDCounterKey")
+		if !ok1 || !ok2 || !ok3 {
+			return fmt.Errorf("consensusQueueMaxBatchSize / counter key constants not found")
+		}
+		c.P("Definition batch_max_size : Z := %s.", strings.ReplaceAll(mx, "_", ""))
+		c.P("Definition id_counter_keys_distinct : bool := %v. (* %s vs %s *)", k1 != k2, k1, k2)
+		// is any queue configured as batched outside the consensus queue package and tests?
+		n := 0
+		for _, dir := range []string{"x/evm/keeper", "x/evm/types", "x/evm", "x/consensus/keeper", "x/consensus", "x/skyway/keeper", "x/valset/keeper", "x/paloma/keeper", "x/scheduler/keeper", "x/treasury/keeper", "x/metrix/keeper", "app"} {
+			fs, err := c.ParseDir(dir)
+			if err != nil {
+				continue
+			}
+			for _, f := range fs {
+				n += len(Calls(f, "WithBatch"))
+				ast.Inspect(f, func(x ast.Node) bool {
+					if kv, ok := x.(*ast.KeyValueExpr); ok {
+						if id, ok := kv.Key.(*ast.Ident); ok && id.Name == "Batched" {
+							n++
+						}
+					}
+					return true
+				})
+			}
+		}
+		c.P("Definition batched_queue_configurations : Z := %d. (* WithBatch(..) calls / Batched: keys outside x/consensus/keeper/consensus and tests *)", n)
+	}
 
 	if len(errs) > 0 {
 		sort.Strings(errs)
